@@ -906,7 +906,11 @@ class UTMITranslator(Elaboratable):
             self.tx_ready                 .eq(transmit_translator.tx_ready),
 
             # Connect our inputs to our control translator / register window.
-            control_translator.bus_idle   .eq(~transmit_translator.busy & phy_ready),
+            # Never start a register write while a transmission is requested or owns the bus: the transmitter
+            # has priority on the data/stp mux below, so the write would be hidden from the PHY (and, as the
+            # transmitter in turn waits for the control translator, neither would ever complete).
+            control_translator.bus_idle   .eq(~transmit_translator.busy & ~transmit_translator.ulpi_out_req &
+                                              ~self.tx_valid & phy_ready),
             register_window.ulpi_data_in  .eq(self.ulpi.data.i),
             register_window.ulpi_dir      .eq(self.ulpi.dir.i),
             register_window.ulpi_next     .eq(self.ulpi.nxt.i),
